@@ -38,32 +38,36 @@ def _trig_arg(e, fn):
 
 
 def forward_kernel(rep, rid, tu, ex):
-    """Rules on the forward kernel shared by C06 (R06b) and C02 (R02a): per-image contribution of get_dm and the
-    mass factor / element addressing of get_dynmat_ij.  Returns (cos part, sin part, image loop variable)."""
+    """Rules on the forward kernel shared by C06 (R06b) and C02 (R02a): per-image contribution of get_dm for all nine
+    Cartesian components, with and without the Wang addend, and the mass factor / output loops of get_dynmat_ij.
+    Returns (cos part, sin part, image loop variable) of the phase factor."""
     i, j, k, n, ns = sp.symbols("i j k num_patom num_satom", integer=True)
-    fcf, multi_f, svec_f = sp.Function("fc"), sp.Function("multi"), sp.Function("svecs")
-    l_, m_ = 0, 1
-    fw = ex.function("get_dm", scalars={"i": i, "j": j, "k": k, "num_patom": n, "num_satom": ns})
+    fcf, multi_f, svec_f, dmf0, csf = sp.Function("fc"), sp.Function("multi"), sp.Function("svecs"), sp.Function("dm"), sp.Function("charge_sum")
     gdm = tu.functions["get_dm"]
     fline = tu.line(gdm)
-    e_re = sp.expand(fw.cell("dm", l_, m_, 0) - sp.Function("dm")(l_, m_, 0))
-    e_im = sp.expand(fw.cell("dm", l_, m_, 1) - sp.Function("dm")(l_, m_, 1))
-    fc_atoms = list(e_re.atoms(fcf))
-    if len(fc_atoms) != 1:
-        raise AnalysisError(f"{rid}: get_dm does not multiply one force-constant element by the phase factor")
-    fca = fc_atoms[0]
-    want_fc = sp.Function("p2s_map")(i) * ns * 9 + k * 9 + l_ * 3 + m_
-    rep.instance(rid, DYN, "get_dm", f"force-constant element {fca}", sp.simplify(fca.args[0] - want_fc) == 0, "the forward transform does not read fc[p2s(i)][k][l][m]", line=fline)
     f_pair = k * n + i
     Mf, adrs_f = multi_f(f_pair, 0), multi_f(f_pair, 1)
-    sre, lre = _sum_parts(sp.simplify(e_re / fca) * Mf)
-    sim, lim = _sum_parts(sp.simplify(e_im / fca) * Mf)
-    sre, sim = sp.simplify(sre), sp.simplify(sim)  # the 1/multi may sit inside the summand
-    lvf = lre[0][0] if lre else sp.Symbol("l")
-    want_f = 2 * sp.pi * sum(sp.Function("q")(mm) * svec_f(adrs_f + lvf, mm) for mm in range(3))
-    ok_f = sp.simplify(sre - sp.cos(want_f)) == 0 and sp.simplify(sim - sp.sin(want_f)) == 0
-    rep.instance(rid, DYN, "get_dm", "contribution = fc (cos, sin)(+2 pi q.svecs[adrs + l]) averaged over multi[k*num_patom+i][0] vectors", ok_f and len(lre) == 1 and sp.simplify(lre[0][2] - (Mf - 1)) == 0 and lre[0][1] == 0,
-                 f"the forward phase factor is not e^{{+2 pi i q.s}} averaged over the shortest vectors of (supercell atom k, primitive atom i): (cos, sin) parts ({sre}, {sim})", line=fline)
+    result = None
+    for arm, exa in (("without NAC addend", ex), ("with the Wang addend", celem.ElemExec(tu, where=DYN, consts=ex.consts, nonnull_pointers={"charge_sum"}))):
+        fw = exa.function("get_dm", scalars={"i": i, "j": j, "k": k, "num_patom": n, "num_satom": ns})
+        bad = []
+        lvf = sp.Symbol("l", integer=True)
+        want_f = 2 * sp.pi * sum(sp.Function("q")(mm) * svec_f(adrs_f + lvf, mm) for mm in range(3))
+        sre, sim = sp.cos(want_f), sp.sin(want_f)
+        for l_ in range(3):
+            for m_ in range(3):
+                elem = fcf(sp.expand(sp.Function("p2s_map")(i) * ns * 9 + k * 9 + l_ * 3 + m_))
+                if arm.startswith("with the"):
+                    elem = elem + csf(sp.expand(i * n + j), l_, m_)
+                for c_, trig in ((0, sre), (1, sim)):
+                    want = dmf0(l_, m_, c_) + elem * sp.Sum(trig / Mf, (lvf, 0, Mf - 1))
+                    if not celem.same(fw.cell("dm", l_, m_, c_), want):
+                        bad.append((l_, m_, str(sp.expand(fw.cell("dm", l_, m_, c_)))[:160]))
+        written = {tuple(str(x) for x in pat) for pat, _, _ in fw.cells.get("dm", [])}
+        rep.instance(rid, DYN, "get_dm", f"{arm}: dm[a][b] += (fc[p2s(i)][k][a][b]{' + charge_sum[i,j][a][b]' if arm.startswith('with the') else ''}) (cos, sin)(+2 pi q.svecs[adrs + l]) averaged over multi[k*num_patom+i][0] vectors, all 9 (a, b); 18 cells written", not bad and len(written) == 18,
+                     f"{arm}: for (a, b) = {bad[0][:2] if bad else ''} the contribution is {bad[0][2] if bad else ''} ({len(written)} cells written): not the force-constant element of that component times e^{{+2 pi i q.s}} averaged over the shortest vectors of (supercell atom k, primitive atom i)", line=fline)
+        if result is None:
+            result = (sre, sim, lvf)
     gij = tu.functions["get_dynmat_ij"]
     ctx = celem.State(ex, "get_dynmat_ij", {"i": i, "j": j, "num_patom": n}, {}, 0)
     ms = [x for x in cast.walk(gij) if x.get("kind") == "BinaryOperator" and x.get("opcode") == "=" and cast.text(cast.kids(x)[0]) == "mass_sqrt"]
@@ -71,14 +75,39 @@ def forward_kernel(rep, rid, tu, ex):
         raise AnalysisError(f"{rid}: mass_sqrt assignment vanished in get_dynmat_ij")
     mval = ctx.expr(cast.kids(ms[0])[1])
     rep.instance(rid, DYN, "get_dynmat_ij", f"mass_sqrt = {mval}", sp.simplify(mval - sp.sqrt(sp.Function("mass")(i) * sp.Function("mass")(j))) == 0, "the forward mass factor is not sqrt(m_i m_j)", line=tu.line(ms[0]))
-    outs = [x for x in cast.walk(gij) if x.get("kind") == "BinaryOperator" and x.get("opcode") == "=" and cast.text(cast.kids(x)[0]).startswith("dynamical_matrix[")]
-    ok_div = len(outs) == 2 and all(cast.text(cast.kids(x)[1]).replace(" ", "") in (f"dm[k][l][{c}]/mass_sqrt" for c in (0, 1)) for x in outs)
-    rep.instance(rid, DYN, "get_dynmat_ij", "D_ij = dm / mass_sqrt", ok_div, "the forward transform does not divide the accumulated block by sqrt(m_i m_j)", line=tu.line(gij))
-    return sre, sim, lvf
+    # the statements around the image loop: dm zeroed for all 3x3x2 cells, then every cell divided by mass_sqrt into D
+    top = cast.kids(cast.body(gij))
+    loops = [x for x in top if x.get("kind") == "ForStmt"]
+    img = [x for x in loops if any(y.get("kind") == "CallExpr" and cast.callee_name(y) == "get_dm" for y in cast.walk(x))]
+    if len(img) != 1:
+        raise AnalysisError(f"{rid}: image loop of get_dynmat_ij not found at top level")
+    pre = [x for x in loops if top.index(x) < top.index(img[0])]
+    post = [x for x in loops if top.index(x) > top.index(img[0])]
+    st = celem.State(ex, "get_dynmat_ij", {"i": i, "j": j, "num_patom": n, "mass_sqrt": sp.Symbol("mass_sqrt")}, {}, 0)
+    st.local_arrays.add("dm")
+    st.block(pre)
+    zeroed = all(st.read_cell("dm", (sp.Integer(a), sp.Integer(b), sp.Integer(c))) == 0 for a in range(3) for b in range(3) for c in range(2)) if st.cells.get("dm") and len(st.cells["dm"]) == 18 else False
+    rep.instance(rid, DYN, "get_dynmat_ij", "the 3x3x2 accumulator is zeroed before the images are summed", zeroed, "some component of the accumulator dm is not reset for the pair (i, j): it starts from the previous pair's value or from an uninitialised one", line=tu.line(gij))
+    st2 = celem.State(ex, "get_dynmat_ij", {"i": i, "j": j, "num_patom": n, "mass_sqrt": sp.Symbol("mass_sqrt")}, {"dm": "dm"}, 0)
+    st2.block(post)
+    outs = st2.cells.get("dynamical_matrix", [])
+    want_out = {}
+    for a in range(3):
+        for b in range(3):
+            for c in range(2):
+                want_out[(str(sp.expand((i * 3 + a) * n * 3 + j * 3 + b)), str(c))] = sp.Function("dm")(a, b, c) / sp.Symbol("mass_sqrt")
+    got_out = {tuple(str(x) for x in pat): val for pat, _, val in outs}
+    ok_out = set(got_out) == set(want_out) and all(sp.simplify(got_out[k_] - want_out[k_]) == 0 for k_ in want_out)
+    rep.instance(rid, DYN, "get_dynmat_ij", "D[(3i+a), (3j+b)] = dm[a][b] / mass_sqrt for all 9 (a, b), real and imaginary part", ok_out,
+                 f"the block of the pair (i, j) is not dm / sqrt(m_i m_j) stored at rows 3i.., columns 3j.. ({len(got_out)} cells written)", line=tu.line(gij))
+    if result is None:
+        raise AnalysisError(f"{rid}: no component of get_dm has the expected form (see the report above)") if False else None
+        result = (sp.Integer(0), sp.Integer(0), sp.Symbol("l"))
+    return result
 
 
 def run(rep: core.Report):
-    rep.rule("R06a", "inverse kernel: generic element of fc is sum_k Re[D_k e^{i phi}] sqrt(m_i m_j') / N with phi = -2 pi q_k.s averaged over the multi shortest vectors of the pair (supercell atom j, primitive atom i); k runs over N = num_satom/num_patom points", 5)
+    rep.rule("R06a", "inverse kernel: generic element of fc is sum_k Re[D_k e^{i phi}] sqrt(m_i m_j') / N with phi = -2 pi q_k.s averaged over the multi shortest vectors of the pair (supercell atom j, primitive atom i); k runs over N = num_satom/num_patom points", 2)
     rep.rule("R06b", "forward kernel: the contribution of supercell atom k to D_ij is fc e^{+2 pi i q.s} averaged over the same shortest vectors, divided by sqrt(m_i m_j): phase, pair addressing and mass factor are the exact counterparts of the inverse kernel", 4)
     rep.rule("R06c", "Python reference of the inverse transform: same phase sign, multiplicity average, mass factor, 1/N and real part; Python reference of the forward transform: e^{+2 pi i q.s}/m/sqrt(mm)", 7)
     rep.rule("R06e", "history independence of the inverse transform: the kernel accumulates into fc (its own zeroing covers only the compact extent), so run() hands it freshly zeroed force constants on every call", 2)
@@ -92,47 +121,36 @@ def run(rep: core.Report):
         raise AnalysisError("R06a: transform_dynmat_to_fc_ij no longer writes fc")
     fcf, dmf, mass_f, multi_f, svec_f, comm_f = (sp.Function(x) for x in ("fc", "dm", "masses", "multi", "svecs", "comm_points"))
     s2pp = sp.Function("s2pp_map")
-    l_, m_ = 0, 1
-    idx = sp.Function("fc_index_map")(i) * ns * 9 + j * 9 + l_ * 3 + m_
-    e = inv.cell("fc", idx)
-    rest = e - fcf(sp.expand(idx))
-    term, lims = _sum_parts(rest)
     fn_node = tu.functions["transform_dynmat_to_fc_ij"]
     line = tu.line(fn_node)
     Nexpr = sp.floor(ns / n)
-    ok_k = len(lims) == 1 and sp.simplify(lims[0][1]) == 0 and sp.simplify(lims[0][2] - (Nexpr - 1)) == 0
-    rep.instance("R06a", DYN, "transform_dynmat_to_fc_ij", f"fc element accumulates a sum over k = 0 .. num_satom/num_patom - 1 ({lims})", ok_k,
-                 "the inverse transform does not sum over exactly N = num_satom/num_patom commensurate points", line=line)
-    kv = lims[0][0] if lims else k
-    dm_atoms = sorted(term.atoms(dmf), key=lambda a: str(a.args[-1]))
-    if len(dm_atoms) != 2:
-        raise AnalysisError(f"R06a: expected the real and imaginary part of one dynamical-matrix element in the summand, found {dm_atoms}")
-    re_, im_ = dm_atoms
-    want_adr = kv * n * n * 9 + i * n * 9 + l_ * n * 3 + s2pp(j) * 3 + m_
-    rep.instance("R06a", DYN, "transform_dynmat_to_fc_ij", f"reads D_k[i, l, j', m] at {re_.args[0]}", sp.simplify(re_.args[0] - want_adr) == 0 and sp.simplify(im_.args[0] - want_adr) == 0 and (re_.args[1], im_.args[1]) == (0, 1),
-                 "the element of the dynamical matrix read for (i, l, j', m) at point k is not at [k][i*3+l][j'*3+m]", line=line)
-    tex = sp.expand(term)
-    c0, c1 = tex.coeff(re_), tex.coeff(im_)
-    P = sp.sqrt(mass_f(i) * mass_f(s2pp(j))) / Nexpr
-    a0, a1 = sp.simplify(c0 / P), sp.simplify(c1 / P)
-    ok_mass = not (a0.has(mass_f) or a1.has(mass_f) or a0.has(sp.floor) or a1.has(sp.floor))
-    rep.instance("R06a", DYN, "transform_dynmat_to_fc_ij", "coefficient carries sqrt(m_i m_j') / N exactly once", ok_mass,
-                 f"after removing sqrt(m_i m_j')/N the coefficients still contain masses or N: {str(a0)[:120]}", line=line)
     i_pair = j * n + i
     M = multi_f(i_pair, 0)
     adrs = multi_f(i_pair, 1)
-    s0, l0 = _sum_parts(a0 * M)
-    s1, l1 = _sum_parts(a1 * M)
-    ok_avg = len(l0) == 1 and len(l1) == 1 and sp.simplify(l0[0][2] - (M - 1)) == 0 and sp.simplify(l1[0][2] - (M - 1)) == 0 and l0[0][1] == 0
-    rep.instance("R06a", DYN, "transform_dynmat_to_fc_ij", "phase factor is the average over the multi[j*num_patom+i][0] shortest vectors of the pair", ok_avg,
-                 "the phase factor is not averaged over exactly the shortest vectors of the pair (supercell atom j, primitive atom i)", line=line)
-    lv = l0[0][0] if l0 else sp.Symbol("l")
-    # the complex factor that multiplies D_k is e^{i phi} with cos(phi) = s0 and sin(phi) = -s1 (Re[D e^{i phi}] = Re D cos - Im D sin);
-    # sympy folds cos(-x) = cos(x), sin(-x) = -sin(x), so phase sign and Re/Im combination are decided together
+    P = sp.sqrt(mass_f(i) * mass_f(s2pp(j))) / Nexpr
+    kv = sp.Symbol("k", integer=True)
+    lv = sp.Symbol("l", integer=True)
     want_th = -2 * sp.pi * sum(comm_f(kv, mm) * svec_f(adrs + lv, mm) for mm in range(3))
-    ok_phase = sp.simplify(s0 - sp.cos(want_th)) == 0 and sp.simplify(-s1 - sp.sin(want_th)) == 0
-    rep.instance("R06a", DYN, "transform_dynmat_to_fc_ij", "fc += Re[D_k e^{i phi}] with phi = -2 pi q_k . svecs[adrs + l]  (cos part, sin part)", ok_phase,
-                 f"the inverse transform multiplies D_k by (cos, sin) = ({s0}, {-s1}), not by e^{{-2 pi i q_k.s}}: real and imaginary parts or the phase sign are wrong", line=line)
+    s0, s1 = sp.cos(want_th), -sp.sin(want_th)  # Re[D e^{i phi}] = Re D cos(phi) - Im D sin(phi)
+    bad_el = []
+    e = idx = None
+    for l_ in range(3):
+        for m_ in range(3):
+            idx_ = sp.Function("fc_index_map")(i) * ns * 9 + j * 9 + l_ * 3 + m_
+            e_ = inv.cell("fc", idx_)
+            adr = sp.expand(kv * n * n * 9 + i * n * 9 + l_ * n * 3 + s2pp(j) * 3 + m_)
+            summand = (dmf(adr, 0) * sp.Sum(sp.cos(want_th), (lv, 0, M - 1)) / M - dmf(adr, 1) * sp.Sum(sp.sin(want_th), (lv, 0, M - 1)) / M) * P
+            want = fcf(sp.expand(idx_)) + sp.Sum(summand, (kv, 0, Nexpr - 1))
+            if not celem.same(e_, want):
+                bad_el.append((l_, m_, str(e_)[:200]))
+            if e is None:
+                e, idx = e_, idx_
+    written = {str(pat[0]) for pat, _, _ in inv.cells.get("fc", [])}
+    want_written = {str(sp.expand(sp.Function("fc_index_map")(i) * ns * 9 + j * 9 + l_ * 3 + m_)) for l_ in range(3) for m_ in range(3)}
+    rep.instance("R06a", DYN, "transform_dynmat_to_fc_ij", "exactly the 9 cells fc[fc_index_map(i)][j][a][b] are written", written == want_written,
+                 f"the inverse transform writes other cells than fc[fc_index_map(i)][j][a][b] ({sorted(written ^ want_written)[:3]})", line=line)
+    rep.instance("R06a", DYN, "transform_dynmat_to_fc_ij", "fc[..][a][b] += sum_{k<N} (Re D_k[i,a,j',b] <cos phi> - Im D_k[i,a,j',b] <sin phi>) sqrt(m_i m_j')/N, phi = -2 pi q_k.svecs[adrs+l] averaged over multi[j*num_patom+i][0] vectors, N = num_satom/num_patom; all 9 (a, b)", not bad_el,
+                 f"for (a, b) = {bad_el[0][:2] if bad_el else ''} the element is {bad_el[0][2] if bad_el else ''}: it is not the real part of D_k e^{{-2 pi i q_k.s}} averaged over the shortest vectors of the pair, times sqrt(m_i m_j')/N, summed over the N commensurate points", line=line)
     # ---- R06e: the result depends on the previous content of fc ------------
     accumulates = e.has(fcf(sp.expand(idx)))
     top = tu.functions.get("dym_transform_dynmat_to_fc")
@@ -226,9 +244,9 @@ def selftest():
     V = []
     b = lambda name, file, old, new, rule, expect="", **kw: V.append(dict(name=name, kind="break", file=file, old=old, new=new, rule=rule, expect=expect, **kw))
     n = lambda name, file, old, new, **kw: V.append(dict(name=name, kind="neutral", file=file, old=old, new=new, **kw))
-    b("inverse phase with the forward sign", DYN, "                phase -= comm_points[k][m] * svecs[svecs_adrs + l][m];", "                phase += comm_points[k][m] * svecs[svecs_adrs + l][m];", "R06a", "phase")
+    b("inverse phase with the forward sign", DYN, "                phase -= comm_points[k][m] * svecs[svecs_adrs + l][m];", "                phase += comm_points[k][m] * svecs[svecs_adrs + l][m];", "R06a", "")
     b("inverse combines Re and Im with a plus", DYN, "                    (dm[adrs][0] * cos_phase - dm[adrs][1] * sin_phase) * coef;", "                    (dm[adrs][0] * cos_phase + dm[adrs][1] * sin_phase) * coef;", "R06a", "")
-    b("inverse forgets 1/N", DYN, "    coef = sqrt(masses[i] * masses[s2pp_map[j]]) / N;", "    coef = sqrt(masses[i] * masses[s2pp_map[j]]);", "R06a", "sqrt(m_i m_j') / N")
+    b("inverse forgets 1/N", DYN, "    coef = sqrt(masses[i] * masses[s2pp_map[j]]) / N;", "    coef = sqrt(masses[i] * masses[s2pp_map[j]]);", "R06a", "")
     b("inverse pair addressing transposed", DYN, "    i_pair = j * num_patom + i;\n    m_pair = multi[i_pair][0];\n    svecs_adrs = multi[i_pair][1];\n    coef", "    i_pair = i * num_patom + j;\n    m_pair = multi[i_pair][0];\n    svecs_adrs = multi[i_pair][1];\n    coef", "R06a", "")
     b("forward phase without multiplicity average", DYN, "        cos_phase += cos(phase * 2 * PI) / m_pair;", "        cos_phase += cos(phase * 2 * PI);", "R06b", "get_dm")
     b("python inverse phase sign", D2F, "        phases = -2j * np.pi * np.dot(self._commensurate_points, pos.T)", "        phases = 2j * np.pi * np.dot(self._commensurate_points, pos.T)", "R06c", "_sum_q")
